@@ -6,7 +6,8 @@ import numpy as np
 from harness import circgen as cg, logicsim_corr as lc, simcheck as sk, wavecheck as wk, wavesim_corr as wc, map_oracle as mo
 
 THEOREMS = ['C07_levels_valid', 'C07_any_order_in_level', 'C07_threads_once', 'C07_build_ops_ssa', 'C07_build_levels_valid',
-            'C07_build_stems_defined', 'C07_stems_are_chain_heads', 'C07_build_ops_ssa_strip', 'C07_build_levels_valid_strip', 'C07_build_sched_cert']
+            'C07_build_stems_defined', 'C07_stems_are_chain_heads', 'C07_build_ops_ssa_strip', 'C07_build_levels_valid_strip', 'C07_build_sched_cert',
+            'C07_launcher_source_is_model']
 
 
 def permute_levels(sim, rng):
@@ -122,6 +123,8 @@ def wave_perm(rng):
 
 def run(ck):
     if THEOREMS:
+        from vcheck import gen_all
+        gen_all.generate(['LaunchSrc'])     # tie T for the launcher: regenerated before the build (obligation recorded by launch_corr.run)
         ck.prove('C07', THEOREMS)
     rng = random.Random(ck.seed * 7919 + 7)
     nrng = np.random.default_rng(ck.seed + 7)
